@@ -20,7 +20,7 @@ Oracle clauses (violation keys ``C15/<harness>/<copy|buffered>/<clause>[/<site>]
                       is a single poll and only counted, see check_timeout)
   spurious-close      the active generator was closed although neither the peer disconnected nor the handler closed
   unexpected-exception something else than a parse error / TimeoutError / a justified transport error reached the handler
-  generator-close     every generator instance that was started ran its ``finally`` exactly once by the time the
+  generator-close     no generator is started after the handler closed the client and its generator ended; every generator instance that was started ran its ``finally`` exactly once by the time the
                       connection is closed; at most one GeneratorExit per instance; never two active per connection
   connection-closed   after the peer disconnected / the handler ended, the server-side SimSocket ends closed
   wire                bytes handed to the socket == concatenation of the responses in handler order
@@ -332,6 +332,14 @@ class Ctx:
         for g in conn.gens:
             if g.active:
                 self.flag("generator-close", f"{conn.label}: generator {kind!r} started while generator {g.kind!r} of the same connection is still active", "two-active", conn=conn)
+        if conn.handler_closed_at is not None or conn.handler_end is not None:
+            self.flag(
+                "generator-close",
+                f"{conn.label}: a new generator {kind!r} was started after the handler had closed the client / ended the connection "
+                f"(closed at request #{conn.handler_closed_at}, end={conn.handler_end}) and its generator had finished",
+                "started-after-close",
+                conn=conn,
+            )
         rec = GenRec(kind, n)
         conn.gens.append(rec)
         world.log("gen", conn.label, kind, n)
